@@ -489,6 +489,85 @@ def extendRefStep (sys : Sys DKey DVal DKey) (i : Nat) (init xs : List Nat) :
   | .panic c _ => (sys, out (.panic c) .unit)
   | .ub => (sys, out .ub .unit)
 
+/-- `clone()` of a container of plain elements (no destructor, counting `Clone`): the model's
+    `insert` builds the source on a scratch register, `cloneInto` clones it; reported are `len` of
+    the clone, the numbers of key and value clone callbacks, the clone's entries and `clone == src`
+    (the model's `mapEq`). -/
+def clonePlainStep (sys : Sys DKey DVal DKey) (isMap : Bool) (i : Nat) (xs : List (Nat × Nat)) :
+    Sys DKey DVal DKey × Out DKey DVal DKey :=
+  let w0 : World DKey DVal DKey := { profile := sys.w.profile, nextId := 100000 }
+  let out (oc : Outcome) (r : RV DKey DVal) : Out DKey DVal DKey :=
+    { outcome := oc, ret := r, events := [], calls := 0,
+      touchedMaps := if isMap then [i] else [], touchedSets := if isMap then [] else [i] }
+  let count (ev : List (Event DKey DVal DKey)) : Nat × Nat :=
+    ev.foldl (fun (a : Nat × Nat) e => match e with
+      | .cloneK _ _ => (a.1 + 1, a.2) | .cloneV _ _ => (a.1, a.2 + 1) | _ => a) (0, 0)
+  if isMap then
+    let E := mkEnv .lawful
+    let cap := (sys.maps i).cap
+    let build : SM DKey DVal DKey Unit := do
+      for (k, v) in xs do
+        let _ ← insert E ⟨k, 0⟩ ⟨0, v⟩
+    match build ⟨Raw.new cap, w0⟩ with
+    | .ok _ s1 =>
+      match cloneInto E s1.r ⟨Raw.new cap, { s1.w with events := [] }⟩ with
+      | .ok _ s2 =>
+        let (kc, vc) := count s2.w.events
+        let ents := (List.range s2.r.len).filterMap fun j => s2.r.slots j
+        let eq := match mapEq E s2.r s1.r s2 with | .ok b _ => b | _ => false
+        (sys, out .ok (.list [.nat s2.r.len, .nat kc, .nat vc,
+          .list (ents.map fun p => .tag s!"{p.1.cls}:{p.2.val}"), .bool eq]))
+      | .panic c _ => (sys, out (.panic c) .unit)
+      | .ub => (sys, out .ub .unit)
+    | .panic c _ => (sys, out (.panic c) .unit)
+    | .ub => (sys, out .ub .unit)
+  else
+    let F := (mkEnv .lawful).toUnit
+    let cap := (sys.sets i).cap
+    let build : SM DKey Unit DKey Unit := do
+      for (k, _) in xs do
+        let _ ← insert F ⟨k, 0⟩ ()
+    match build ⟨Raw.new cap, w0.toUnit⟩ with
+    | .ok _ s1 =>
+      match cloneInto F s1.r ⟨Raw.new cap, { s1.w with events := [] }⟩ with
+      | .ok _ s2 =>
+        let kc := (s2.w.events.filter fun e => match e with | .cloneK _ _ => true | _ => false).length
+        let eq := match mapEq F s2.r s1.r s2 with | .ok b _ => b | _ => false
+        (sys, out .ok (.list [.nat s2.r.len, .nat kc, .nat 0,
+          .list ((keysOfRaw' s2.r).map fun k => .nat k.cls), .bool eq]))
+      | .panic c _ => (sys, out (.panic c) .unit)
+      | .ub => (sys, out .ub .unit)
+    | .panic c _ => (sys, out (.panic c) .unit)
+    | .ub => (sys, out .ub .unit)
+
+/-- serde round trip of a container of `k` insertions of THE zero-sized value: the model's
+    `insert`, `serializeR` (announced length and one token per entry), `deserializeInto`. -/
+def serdeZstStep (sys : Sys DKey DVal DKey) (isMap : Bool) (i k : Nat) :
+    Sys DKey DVal DKey × Out DKey DVal DKey :=
+  let F := (mkEnv .lawful).toUnit
+  let w0 : World DKey Unit DKey := ({ profile := sys.w.profile, nextId := 100000 } : World DKey DVal DKey).toUnit
+  let cap := if isMap then (sys.maps i).cap else (sys.sets i).cap
+  let out (oc : Outcome) (r : RV DKey DVal) : Out DKey DVal DKey :=
+    { outcome := oc, ret := r, events := [], calls := 0,
+      touchedMaps := if isMap then [i] else [], touchedSets := if isMap then [] else [i] }
+  let build : SM DKey Unit DKey Unit := do
+    for _ in List.range k do
+      let _ ← insert F ⟨0, 0⟩ ()
+  match build ⟨Raw.new cap, w0⟩ with
+  | .ok _ s1 =>
+    match serializeR (Q := DKey) s1.r s1 with
+    | .ok toks s2 =>
+      match deserializeInto F toks ⟨Raw.new cap, s2.w⟩ with
+      | .ok _ s3 =>
+        let ann : RV DKey DVal := match toks with | .start (some n) :: _ => .nat n | _ => .none
+        (sys, out .ok (.list [ann, .nat (toks.filter Tok.isEntry).length, .nat s3.r.len]))
+      | .panic c _ => (sys, out (.panic c) .unit)
+      | .ub => (sys, out .ub .unit)
+    | .panic c _ => (sys, out (.panic c) .unit)
+    | .ub => (sys, out .ub .unit)
+  | .panic c _ => (sys, out (.panic c) .unit)
+  | .ub => (sys, out .ub .unit)
+
 def keysOfRaw (r : Raw DKey Unit) : List (DKey × Unit) :=
   (List.range r.len).filterMap fun i => r.slots i
 
@@ -661,6 +740,20 @@ partial def loop (profile : Profile) (h : IO.FS.Stream) (out : IO.FS.Stream) (st
       | [reg, "serde_wrong"] => (parseReg? reg).map fun (isMap, i) =>
           customStep st.sys (if isMap then [i] else []) (if isMap then [] else [i]) fun sys0 =>
             .ok (.str ("invalid type: boolean `true`, expected " ++ (if isMap then "a Map" else "a Set"))) sys0
+      | [reg, "clone_plain", xs] =>
+        match parseReg? reg, parseList? xs with
+        | some (isMap, i), some items =>
+          let ps : Option (List (Nat × Nat)) := items.mapM fun it =>
+            match it.splitOn "=" with
+            | [a, b] => do pure (← a.toNat?, ← b.toNat?)
+            | [a] => do pure (← a.toNat?, 0)
+            | _ => none
+          ps.map fun ps => clonePlainStep st.sys isMap i ps
+        | _, _ => none
+      | [reg, "serde_zst", k] =>
+        match parseReg? reg, k.toNat? with
+        | some (isMap, i), some k => some (serdeZstStep st.sys isMap i k)
+        | _, _ => none
       | [reg, "defaults"] => (parseReg? reg).map fun (isMap, i) => defaultsStep st.env st.sys isMap i
       | _ => none
     if let some (sys', o) := customOut then
